@@ -25,7 +25,7 @@
 (***************************************************************************)
 EXTENDS Integers, Sequences, FiniteSets, TLC, Json
 
-CONSTANTS Mode,      \* "single" | "pair" | "list" | "mix" | "all" : which families of vectors Init enumerates
+CONSTANTS Mode,      \* "single" | "pair" | "list" | "mix" | "ds" | "ds3" | "all" : which families of vectors Init enumerates
           Big,       \* FALSE: quick bound, TRUE: thorough bound
           PairScopes,\* Mode "pair": the rule scopes enumerated (a subset of {"trace", "span"})
           Faithful   \* TRUE: the graph also contains the known deviation successors
@@ -127,9 +127,20 @@ SpanBool(v) ==
 (*            val |-> value, list |-> Seq(value)]                          *)
 (*   rule  : [scope |-> "trace"|"span"|"" , conds |-> Seq(cond),           *)
 (*            drop |-> BOOLEAN, rate |-> Nat (0: no SampleRate key),       *)
-(*            ds |-> BOOLEAN (downstream DynamicSampler with SampleRate 1)]*)
+(*            name |-> the rule's Name: "" = no Name key (Name is optional *)
+(*                     and need not be unique), "#" = named by position    *)
+(*                     ("r1", "r2", ...: unique), else the literal name,   *)
+(*            down |-> the rule's own downstream sampler (Sampler key):    *)
+(*                     [kind |-> "none" | "det" | "dyn" | "ema" | "total" |*)
+(*                               "emat" | "win",                           *)
+(*                      rate |-> SampleRate / GoalSampleRate /             *)
+(*                               GoalThroughputPerSec of THAT sampler,     *)
+(*                      fl   |-> its FieldList (key fields)]]              *)
 (*   span  : [f |-> value, g |-> value]      (Absent: field not on span)   *)
-(*   trace : [spans |-> Seq(span), root |-> index of the root span or 0]   *)
+(*   trace : [spans |-> Seq(span), root |-> index of the root span or 0,   *)
+(*            hb |-> hash bucket of the trace ID: the position of          *)
+(*                   hash(traceID) in 0 .. MaxUint32 cut into HK equal     *)
+(*                   parts (what a deterministic sampler looks at)]        *)
 
 CmpOps == {"=", "!=", "<", "<=", ">", ">="}
 StrOps == {"starts-with", "contains", "does-not-contain"}
@@ -142,8 +153,20 @@ Cond(fields, fk, op, dt, val, list) ==
   [fields |-> fields, fk |-> fk, op |-> op, dt |-> dt, val |-> val, list |-> list]
 C1(fields, op, dt, val) == Cond(fields, IF Len(fields) = 1 THEN "Field" ELSE "Fields", op, dt, val, <<>>)
 HasRoot(b) == Cond(<<>>, "", "has-root-span", "none", B(b), <<>>)
+Down(kind, rate, fl) == [kind |-> kind, rate |-> rate, fl |-> fl]
+NoDown     == Down("none", 0, <<>>)
+Det(n)     == Down("det", n, <<>>)      \* DeterministicSampler {SampleRate n}
+Dyn(n, fl) == Down("dyn", n, fl)        \* DynamicSampler {SampleRate n, FieldList fl}
+Ema(n, fl) == Down("ema", n, fl)        \* EMADynamicSampler {GoalSampleRate n, FieldList fl}
+Tot(n, fl) == Down("total", n, fl)      \* TotalThroughputSampler {GoalThroughputPerSec n, FieldList fl}
+EmT(n, fl) == Down("emat", n, fl)       \* EMAThroughputSampler {GoalThroughputPerSec n, FieldList fl}
+Win(n, fl) == Down("win", n, fl)        \* WindowedThroughputSampler {GoalThroughputPerSec n, FieldList fl}
+KeyedKinds == {"dyn", "ema", "total", "emat", "win"}    \* the kinds that build a sample key
+NRule(name, scope, conds, drop, rate, down) ==
+  [scope |-> scope, conds |-> conds, drop |-> drop, rate |-> rate, name |-> name, down |-> down]
+\* the rules of the older families: named by position; ds = a downstream DynamicSampler {SampleRate 1, FieldList [f]}
 Rule(scope, conds, drop, rate, ds) ==
-  [scope |-> scope, conds |-> conds, drop |-> drop, rate |-> rate, ds |-> ds]
+  NRule("#", scope, conds, drop, rate, IF ds THEN Dyn(1, <<"f">>) ELSE NoDown)
 
 CmpRes(op, d) ==
   CASE op = "="  -> d = 0  [] op = "!=" -> d # 0
@@ -286,29 +309,90 @@ RuleMatches(r, tr, dev) ==
 (* "Rules are evaluated in order, and the first rule that matches" decides;*)
 (* a) downstream sampler, b) Drop, c) SampleRate; no match: kept at 1.     *)
 (* rate = -1 means "not compared" (the documents give no rate to a drop).  *)
-Outcome(rule, class, rate) == [rule |-> rule, class |-> class, rate |-> rate]
-Unevaluated == Outcome(-1, "none", -1)
-Decide(i, r) ==
-  IF r.ds THEN Outcome(i, "keep", 1)
-  ELSE IF r.drop THEN Outcome(i, "drop", -1)
-  ELSE IF r.rate = 1 THEN Outcome(i, "keep", 1)
-  ELSE Outcome(i, "sampled", r.rate)
+(*                                                                         *)
+(* "A rule with a downstream sampler delegates to it": the decision, the   *)
+(* rate, the reason and the sample key are those of the MATCHED rule's OWN *)
+(* downstream sampler (the one configured under that rule's Sampler key),  *)
+(* whatever the other rules of the list are called or delegate to:         *)
+(*  - via    : who decided - "none" (no rule matched), "rule" (the rule's   *)
+(*             Drop / SampleRate) or the kind of the rule's own sampler;   *)
+(*  - a deterministic sampler with SampleRate N keeps exactly the traces   *)
+(*    whose hash(traceID) <= MaxUint32 / N, at rate N; N <= 1 keeps all at *)
+(*    rate 1.  With the hash range cut into HK equal buckets and N | HK    *)
+(*    that is: bucket * N < HK;                                            *)
+(*  - the keyed kinds report the sample key built from their OWN FieldList;*)
+(*    keySet is the set of values that key is made of.  Their keep flag is *)
+(*    random and their rate depends on traffic, except that a dynamic      *)
+(*    sampler with SampleRate 1 keeps everything at rate 1 (assumption).   *)
+HK == 6
+DetRates == {n \in 1 .. HK : HK % n = 0}
+DetKeep(n, hb) == n <= 1 \/ hb * n < HK
+KeyVals(fl, tr) ==
+  {Str(GetF(tr.spans[i], fl[k])) : <<i, k>> \in {p \in (1 .. Len(tr.spans)) \X (1 .. Len(fl)) :
+                                                  GetF(tr.spans[p[1]], fl[p[2]]).k # "abs"}}
+Outcome(rule, class, rate, via, ks) == [rule |-> rule, class |-> class, rate |-> rate, via |-> via, keySet |-> ks]
+Unevaluated == Outcome(-1, "none", -1, "", {})
+Decide(i, r, tr) ==
+  CASE r.down.kind = "det" ->
+         IF r.down.rate <= 1 THEN Outcome(i, "keep", 1, "det", {})
+         ELSE Outcome(i, IF DetKeep(r.down.rate, tr.hb) THEN "keep" ELSE "drop", r.down.rate, "det", {})
+    [] r.down.kind = "dyn" ->
+         IF r.down.rate = 1 THEN Outcome(i, "keep", 1, "dyn", KeyVals(r.down.fl, tr))
+         ELSE Outcome(i, "sampled", -1, "dyn", KeyVals(r.down.fl, tr))
+    [] r.down.kind \in KeyedKinds \ {"dyn"} -> Outcome(i, "sampled", -1, r.down.kind, KeyVals(r.down.fl, tr))
+    [] OTHER ->
+         IF r.drop THEN Outcome(i, "drop", -1, "rule", {})
+         ELSE IF r.rate = 1 THEN Outcome(i, "keep", 1, "rule", {})
+         ELSE Outcome(i, "sampled", r.rate, "rule", {})
 Matching(v, dev) == {i \in 1 .. Len(v.rules) : RuleMatches(v.rules[i], v.trace, dev)}
 Min(s) == CHOOSE x \in s : \A y \in s : x <= y
 EvalVec(v, dev) ==
   LET m == Matching(v, dev)
-  IN IF m = {} THEN Outcome(0, "keep", 1) ELSE Decide(Min(m), v.rules[Min(m)])
+  IN IF m = {} THEN Outcome(0, "keep", 1, "none", {}) ELSE Decide(Min(m), v.rules[Min(m)], v.trace)
+
+(* What a caller of GetSampleRate can tell about WHICH rule decided: the   *)
+(* reason carries the scope word, the rule's Name and (after a colon) the  *)
+(* downstream sampler's own reason.  Rules that agree on all three are not *)
+(* told apart by the reason, so the projection names the first of them;    *)
+(* with unique names that is the rule itself.                              *)
+ScopeWord(r) == IF r.scope = "span" THEN "span" ELSE "trace"
+NameOf(v, i) == IF v.rules[i].name = "#" THEN "r" \o ToString(i) ELSE v.rules[i].name
+SameLook(v, i, j) == /\ NameOf(v, i) = NameOf(v, j)
+                     /\ ScopeWord(v.rules[i]) = ScopeWord(v.rules[j])
+                     /\ v.rules[i].down.kind = v.rules[j].down.kind
+ObsRule(v, i) == IF i <= 0 THEN i ELSE Min({j \in 1 .. Len(v.rules) : SameLook(v, i, j)})
+(* How much of the answer of a rule is compared (see Decide): everything,  *)
+(* not the rate (drop rule), not the keep flag, neither.                   *)
+Compared(r) == CASE r.down.kind \in {"det", "dyn"} -> "exact"
+                 [] r.down.kind # "none" -> "key"
+                 [] r.drop -> "norate"
+                 [] r.rate = 1 -> "exact"
+                 [] OTHER -> "nokeep"
 
 (* The vector is enumerated only if every condition is well formed and     *)
 (* every (condition, extracted value) pair has a documented outcome.       *)
 (* Also excluded: not-exists on a root.-prefixed field in a trace without  *)
 (* root span (rules.md says it "will evaluate to false", while the Fields  *)
 (* paragraph says the field "will be skipped").                            *)
-(* Also excluded: a rule without downstream sampler, Drop and SampleRate.  *)
+(* Also excluded: a rule without downstream sampler, Drop and SampleRate;  *)
+(* a deterministic downstream sampler whose rate does not divide HK (the   *)
+(* bucket would not decide it); a dynamic one with SampleRate > 1 (its     *)
+(* rate depends on traffic and wall-clock time); key fields whose values   *)
+(* have no documented string form; rule lists in which two rules that the  *)
+(* reason cannot tell apart (SameLook) are compared differently (the       *)
+(* observer could not know which comparison applies).                      *)
 VecDefined(v) ==
+  /\ \A i, j \in 1 .. Len(v.rules) : SameLook(v, i, j) => Compared(v.rules[i]) = Compared(v.rules[j])
+  /\ v.trace.hb \in 0 .. HK - 1
+  /\
   \A i \in 1 .. Len(v.rules) :
     LET r == v.rules[i] IN
-    /\ r.ds \/ r.drop \/ r.rate >= 1
+    /\ r.down.kind # "none" \/ r.drop \/ r.rate >= 1
+    /\ r.down.kind = "det" => r.down.rate \in DetRates
+    /\ r.down.kind = "dyn" => r.down.rate = 1
+    /\ r.down.kind \in KeyedKinds =>
+         \A k \in 1 .. Len(r.down.fl) : \A sp \in 1 .. Len(v.trace.spans) :
+            LET x == GetF(v.trace.spans[sp], r.down.fl[k]) IN x.k = "abs" \/ (HasStr(x) /\ Str(x) # "")
     /\ \A j \in 1 .. Len(r.conds) :
          LET c == r.conds[j] IN
          /\ WellFormed(c)
@@ -351,7 +435,7 @@ SingleShapes ==
   \cup {<<op, dt, ListV, l>> : op \in {"in", "not-in"}, dt \in DTs, l \in Lists}
   \cup {<<op, dt, cv, <<>> >> : op \in {"exists", "not-exists"}, dt \in DTs, cv \in {NoVal, S("a")}}
 
-OneSpan(sv, root) == [spans |-> << [f |-> sv, g |-> Absent] >>, root |-> root]
+OneSpan(sv, root) == [spans |-> << [f |-> sv, g |-> Absent] >>, root |-> root, hb |-> 0]
 SingleVecs ==
   LET scopes == IF Big THEN {"", "span"} ELSE {""}
       fks    == IF Big THEN {"Field", "Fields"} ELSE {"Field"}
@@ -360,7 +444,7 @@ SingleVecs ==
   \cup {[rules |-> << Rule(sc, << HasRoot(b) >>, TRUE, 0, FALSE) >>, trace |-> OneSpan(S("a"), root)]
          : sc \in {"", "trace", "span"}, b \in BOOLEAN, root \in {0, 1}}
   \cup {[rules |-> << Rule(sc, << C1(<<Fld(NumDesc)>>, op, dt, I(n)) >>, TRUE, 0, FALSE) >>,
-         trace |-> [spans |-> sps, root |-> 0]]
+         trace |-> [spans |-> sps, root |-> 0, hb |-> 0]]
          : sc \in {"", "span"}, op \in CmpOps, dt \in {"int", "none"}, n \in {1, 2},
            sps \in {<< [f |-> S("a"), g |-> Absent] >>,
                     << [f |-> S("a"), g |-> Absent], [f |-> Absent, g |-> Absent] >>,
@@ -386,7 +470,7 @@ PairSpans == {[f |-> a, g |-> b] : a \in {Absent, S("a"), S("b")}, b \in {Absent
 PairSpans2 == IF Big THEN PairSpans ELSE {sp \in PairSpans : sp.g = Absent}
 PairVecs ==
   {[rules |-> << Rule(sc, <<c1, c2>>, TRUE, 0, FALSE) >>,
-    trace |-> [spans |-> <<s1, s2>>, root |-> root]]
+    trace |-> [spans |-> <<s1, s2>>, root |-> root, hb |-> 0]]
      : sc \in PairScopes, c1 \in PairConds, c2 \in PairConds2,
        s1 \in PairSpans, s2 \in PairSpans2, root \in (IF Big THEN {0, 1, 2} ELSE {0, 1})}
 
@@ -423,15 +507,54 @@ MixCondSeqs == {<<c>> : c \in MixConds}
 MixVals == {Absent, S("a"), S("b")}
 MixVecs ==
   {[rules |-> << Rule(sc, cs, TRUE, 0, FALSE) >>,
-    trace |-> [spans |-> [i \in 1 .. 3 |-> [f |-> fv[i], g |-> IF i = root THEN rg ELSE Absent]], root |-> root]]
+    trace |-> [spans |-> [i \in 1 .. 3 |-> [f |-> fv[i], g |-> IF i = root THEN rg ELSE Absent]], root |-> root, hb |-> 0]]
      : sc \in {"trace", "span"}, cs \in MixCondSeqs, fv \in [1 .. 3 -> MixVals],
        rg \in (IF Big THEN MixVals ELSE {Absent, S("a")}), root \in (IF Big THEN {1, 2, 3} ELSE {1, 2})}
+
+(* Rules that delegate to their OWN downstream sampler, several of them in *)
+(* one rule list, independently: without Name or with the same Name (Name  *)
+(* is optional and not checked for uniqueness), the same scope, the same   *)
+(* number of conditions, the same or different kinds of downstream sampler *)
+(* whose parameters (SampleRate, FieldList) differ or not; mixed with      *)
+(* plain Drop / SampleRate rules (also ones that carry a SampleRate next   *)
+(* to the Sampler: the Sampler wins).  The conditions select which rule    *)
+(* matches (f = "a" / f = "b" / f exists); g carries a value no f has, so  *)
+(* the sample keys of FieldList [f] and [g] differ; the hash bucket of the *)
+(* trace ID ranges over the buckets that tell the deterministic rates      *)
+(* apart.                                                                  *)
+DsConds == {<< C1(FF, "=", "none", S("a")) >>, << C1(FF, "=", "none", S("b")) >>}
+DsNames == {"", "n"}
+DsDowns ==
+  IF Big THEN {Det(1), Det(2), Det(3), Det(6), Dyn(1, <<"f">>), Dyn(1, <<"g">>), Ema(2, <<"f">>), Ema(2, <<"g">>),
+               Tot(5, <<"f">>), Tot(5, <<"g">>), EmT(5, <<"f">>), EmT(5, <<"g">>), Win(5, <<"f">>), Win(5, <<"g">>)}
+  ELSE {Det(1), Det(3), Dyn(1, <<"f">>), Dyn(1, <<"g">>)}
+\* <<drop, rate, down>>
+DsActions == {<<FALSE, 1, NoDown>>, <<TRUE, 0, NoDown>>} \cup {<<FALSE, 0, d>> : d \in DsDowns}
+             \cup (IF Big THEN {<<FALSE, 3, NoDown>>, <<FALSE, 5, Det(2)>>, <<TRUE, 0, Det(3)>>} ELSE {})
+DsRules(sc) == {NRule(nm, sc, cs, a[1], a[2], a[3]) : nm \in DsNames, cs \in DsConds, a \in DsActions}
+DsBuckets == IF Big THEN {1, 2, 5} ELSE {0, 5}
+DsTraces == {[spans |-> << [f |-> fv, g |-> S("ab")] >>, root |-> 1, hb |-> h] : fv \in {S("a"), S("b")}, h \in DsBuckets}
+\* three rules, f = "a" / f = "b" / f exists, one Name for all; the third catches f = "ab"
+DsTriples ==
+  {<<NRule(nm, sc, << C1(FF, "=", "none", S("a")) >>, a1[1], a1[2], a1[3]),
+     NRule(nm, sc, << C1(FF, "=", "none", S("b")) >>, a2[1], a2[2], a2[3]),
+     NRule(nm, sc, << C1(FF, "exists", "none", NoVal) >>, a3[1], a3[2], a3[3])>>
+     : nm \in DsNames, sc \in {""},
+       a1 \in DsActions, a2 \in DsActions, a3 \in {a \in DsActions : a[3].kind \in {"none", "det", "dyn"}}}
+DsTripleTraces == {[spans |-> << [f |-> fv, g |-> S("ab")] >>, root |-> 1, hb |-> h]
+                      : fv \in {S("a"), S("b"), S("ab")}, h \in (IF Big THEN {1, 5} ELSE {5})}
+DsPairVecs ==
+  {[rules |-> <<r1, r2>>, trace |-> tr] : sc \in (IF Big THEN {"", "span"} ELSE {""}),
+                                           r1 \in DsRules(sc), r2 \in DsRules(sc), tr \in DsTraces}
+DsTripleVecs == {[rules |-> rs, trace |-> tr] : rs \in DsTriples, tr \in DsTripleTraces}
 
 Vecs == CASE Mode = "single" -> SingleVecs
           [] Mode = "pair"   -> PairVecs
           [] Mode = "list"   -> ListVecs
           [] Mode = "mix"    -> MixVecs
-          [] Mode = "all"    -> SingleVecs \cup PairVecs \cup ListVecs \cup MixVecs
+          [] Mode = "ds"     -> DsPairVecs
+          [] Mode = "ds3"    -> DsTripleVecs
+          [] Mode = "all"    -> SingleVecs \cup PairVecs \cup ListVecs \cup MixVecs \cup DsPairVecs \cup DsTripleVecs
 
 ---------------------------------------------------------------------------
 Init == /\ vec \in {v \in Vecs : VecDefined(v)}
@@ -486,22 +609,62 @@ Evaluated == out.rule >= 0
 
 TypeOK == /\ out.rule \in -1 .. Len(vec.rules)
           /\ out.class \in {"none", "keep", "drop", "sampled"}
-          /\ out.rate \in {-1, 1, 3, 5}
+          /\ out.rate \in {-1} \cup 1 .. HK
+          /\ out.via \in {"", "none", "rule", "det"} \cup KeyedKinds
+          /\ out.keySet \subseteq {"a", "b", "ab"}
 
 \* C08: the first rule, in configuration order, whose conditions all match decides
 FirstMatch ==
   (Evaluated /\ Ideal) =>
      /\ out.rule > 0 => RuleMatches(vec.rules[out.rule], vec.trace, FALSE)
      /\ \A i \in 1 .. Len(vec.rules) : RuleMatches(vec.rules[i], vec.trace, FALSE) => out.rule \in 1 .. i
-     /\ out.rule = 0 => out.class = "keep" /\ out.rate = 1
+     /\ out.rule = 0 => out.class = "keep" /\ out.rate = 1 /\ out.via = "none"
 
 \* C08: drop / downstream / SampleRate
 Decision ==
   (Evaluated /\ Ideal /\ out.rule > 0) =>
      LET r == vec.rules[out.rule] IN
-     /\ r.ds => out.class = "keep" /\ out.rate = 1
-     /\ (~r.ds /\ r.drop) => out.class = "drop"
-     /\ (~r.ds /\ ~r.drop) => out.rate = r.rate /\ (out.class = "keep" <=> r.rate = 1)
+         ds == r.down.kind # "none" IN
+     /\ (r.down = Dyn(1, <<"f">>)) => out.class = "keep" /\ out.rate = 1
+     /\ (~ds /\ r.drop) => out.class = "drop"
+     /\ (~ds /\ ~r.drop) => out.rate = r.rate /\ (out.class = "keep" <=> r.rate = 1)
+     /\ ds <=> out.via # "rule"
+
+\* C08: "a rule with a downstream sampler delegates to it" - to ITS OWN: who decided, the deterministic
+\* threshold and rate, and the fields of the sample key are those configured under the matched rule
+Delegation ==
+  (Evaluated /\ Ideal /\ out.rule > 0 /\ vec.rules[out.rule].down.kind # "none") =>
+     LET d == vec.rules[out.rule].down IN
+     /\ out.via = d.kind
+     /\ d.kind = "det" => /\ out.rate = (IF d.rate <= 1 THEN 1 ELSE d.rate)
+                          /\ out.class \in {"keep", "drop"}
+                          /\ (out.class = "keep") <=> (d.rate <= 1 \/ vec.trace.hb * d.rate < HK)
+     /\ d.kind \in KeyedKinds =>
+          /\ \A x \in out.keySet : \E i \in 1 .. Len(vec.trace.spans), k \in 1 .. Len(d.fl) :
+                 LET y == GetF(vec.trace.spans[i], d.fl[k]) IN y.k # "abs" /\ Str(y) = x
+          /\ \A i \in 1 .. Len(vec.trace.spans), k \in 1 .. Len(d.fl) :
+                 LET y == GetF(vec.trace.spans[i], d.fl[k]) IN y.k = "abs" \/ Str(y) \in out.keySet
+     /\ d.kind \notin KeyedKinds => out.keySet = {}
+
+\* C08, the same as non-interference: the answer for a trace depends only on the rule that matched -
+\* not on what the OTHER rules of the list delegate to, nor on how any rule is called
+ProbeDowns == {NoDown, Det(1), Det(2), Dyn(1, <<"g">>), Tot(5, <<"f">>)}
+OwnSampler ==
+  ~Evaluated =>
+     LET o == EvalVec(vec, FALSE) IN
+     \A j \in 1 .. Len(vec.rules) :
+        /\ \A nm \in {"", "n", "#"} : EvalVec([vec EXCEPT !.rules[j].name = nm], FALSE) = o
+        /\ \A d \in ProbeDowns :
+             LET v2 == [vec EXCEPT !.rules[j].down = d, !.rules[j].rate = IF d = NoDown /\ ~@.drop /\ @.rate = 0 THEN 1 ELSE @.rate]
+                 o2 == EvalVec(v2, FALSE)
+             IN o2.rule = o.rule /\ (j # o.rule => o2 = o)
+
+\* a deterministic sampler: what is kept at rate N * k is kept at rate N; rate 1 keeps everything
+ASSUME \A hb \in 0 .. HK - 1 : \A n \in DetRates, m \in DetRates :
+          /\ DetKeep(1, hb)
+          /\ (m % n = 0 /\ DetKeep(m, hb)) => DetKeep(n, hb)
+\* and exactly HK / N of the HK buckets are kept at rate N
+ASSUME \A n \in DetRates : Cardinality({hb \in 0 .. HK - 1 : DetKeep(n, hb)}) * n = HK
 
 \* C08: "a condition on a field absent from every span does not match unless its operator is not-exists"
 FieldOf(c, sp, tr) == \E k \in 1 .. Len(c.fields) : c.fields[k].n = NumDesc \/ FieldVal(c.fields[k], sp, tr).k # "abs"
@@ -544,12 +707,14 @@ JCond(c) == [fields |-> [i \in 1 .. Len(c.fields) |-> (IF c.fields[i].r THEN "ro
              fk |-> c.fk, op |-> c.op, dt |-> c.dt, val |-> Lab(c.val),
              list |-> [i \in 1 .. Len(c.list) |-> Lab(c.list[i])]]
 JRule(r) == [scope |-> r.scope, conds |-> [j \in 1 .. Len(r.conds) |-> JCond(r.conds[j])],
-             drop |-> r.drop, rate |-> r.rate, ds |-> r.ds]
+             drop |-> r.drop, rate |-> r.rate, name |-> r.name, down |-> r.down]
 JVec(v) == [rules |-> [i \in 1 .. Len(v.rules) |-> JRule(v.rules[i])],
             trace |-> [spans |-> [i \in 1 .. Len(v.trace.spans) |-> [f |-> Lab(v.trace.spans[i].f), g |-> Lab(v.trace.spans[i].g)]],
-                       root |-> v.trace.root]]
+                       root |-> v.trace.root, hb |-> v.trace.hb]]
 
-Abs == [out |-> out]
+(* The observable projection: the rule is named as far as the reason tells *)
+(* (ObsRule); everything else is the outcome.                              *)
+Abs == [out |-> [out EXCEPT !.rule = ObsRule(vec, out.rule)]]
 St == [vec |-> JVec(vec), out |-> out]
 Dump == PrintT(ToJson([fs |-> St, fa |-> act.name, act |-> act', ts |-> St', fabs |-> Abs, tabs |-> Abs']))
 View == <<vec, out>>
